@@ -3,6 +3,7 @@ import json
 import math
 
 import numpy as np
+from hypothesis import strategies as st
 
 import acnportal.acnsim as acnsim
 
@@ -23,6 +24,9 @@ RULE = (
     "sums. Sub-check ledger_stochastic repeats the ledger on StochasticNetwork histories (run-time "
     "station assignment, waiting queue, early departure of satisfied EVs; generator of C19), the "
     "connection intervals being read from the occupancy recorded where the pilots are applied. "
+    "Sub-check ledger_replug follows ONE EV object through several uses (charge, unplug, "
+    "EV.reset(), plug in elsewhere, leading 0 A pilots); in half of the simulations the scheduler "
+    "charges the EV copies it can obtain (what-if probing), which must not reach the real batteries. "
     "Non-trivial = some session received energy in >= 2 periods and a non-zero pilot was "
     "applied to a vacant station."
 )
@@ -45,9 +49,23 @@ def close(a, b, rel=1e-9, ab=1e-12):
     return abs(a - b) <= ab + rel * max(abs(a), abs(b))
 
 
+def probe_copies(algo, active, out):
+    """A scheduler asking "what if" on the EV copies it can obtain: it charges them, which must
+    not touch the real EVs or their batteries."""
+    import warnings
+
+    with warnings.catch_warnings():
+        warnings.simplefilter("ignore")
+        for ev in algo.interface.active_evs:
+            ev.charge(16.0, 208.0, algo.interface.period)
+            ev.charge(16.0, 208.0, algo.interface.period)
+
+
 def prop(spec, rec):
     m = sc.Model(spec)
     h = sc.build_sim(spec)
+    if spec.get("probing_scheduler"):
+        h.scheduler.post = probe_copies
     sc.run_sim(h)
     sim = h.sim
     R, P = sim.charging_rates, sim.pilot_signals
@@ -88,6 +106,8 @@ def prop(spec, rec):
     integral = math.fsum(want_ap) * (period / 60.0)
     require(close(total, integral, ab=1e-10), "total_energy_equals_power_integral", lambda: "total_energy_delivered %r kWh, integral of aggregate power %r kWh" % (total, integral))
     require(close(total, math.fsum(ev.energy_delivered for ev in h.evs.values()), ab=1e-10), "total_energy_is_sum_over_sessions", "total differs from the sum over sessions")
+    if spec.get("probing_scheduler"):
+        labels.add("scheduler_charges_its_ev_copies")
     if multi:
         labels.add("multi_period_charging")
     if vacant_pilot:
@@ -145,15 +165,82 @@ def subchecks(tier):
     return [
         Given(
             "ledger",
-            sc.scenarios(),
+            ledger_cases(),
             prop,
             quick=400,
             thorough=30000,
             floors={"multi_period_charging": 0.271, "pilot_on_vacant_station": 0.2, "noisy_battery_charged": 0.1, "battery_filled": 0.077, "mixed_voltage": 0.3, "fractional_period": 0.05},
             min_nontrivial=20,
         ),
+        Given("ledger_replug", replug_cases(), prop_replug, quick=800, thorough=60000, floors={"ev_object_used_again": 0.3, "reset_between_sessions": 0.3}, jobs_quick=2),
         Given("ledger_stochastic", stochastic_cases(), prop_stochastic, quick=200, thorough=15000, floors={"early_departure_swap": 0.1, "queue_admission": 0.3}),
     ]
+
+
+@st.composite
+def ledger_cases(draw):
+    spec = draw(sc.scenarios())
+    spec["probing_scheduler"] = draw(st.booleans())
+    return spec
+
+
+def prop_replug(spec, rec):
+    """Ledger at the EVSE / EV level across several uses of ONE EV object: charge, unplug,
+    EV.reset(), plug into another station, charge again (leading 0 A pilots included).  What a
+    network would record (the connected EV's current_charging_rate after each set_pilot) must
+    integrate to the EV's counter and to the battery's gain since the last reset."""
+    from acnportal.acnsim import EV, EVSE
+
+    from ..obs import patched_normal
+    from .c03 import build_battery
+
+    V, T = spec["V"], spec["T"]
+    batt = build_battery(spec)
+    ev = EV(0, 100, 1e9, "st-1", "sess-1", batt)
+    evse = EVSE("st-1")
+    evse.plugin(ev)
+    recorded = []
+    labels = {spec["model"]}
+    sessions = 1
+    with patched_normal(spec["zs"]):
+        for i, pilot in enumerate(spec["pilots"]):
+            if i in spec.get("replug", ()):
+                evse.unplug()
+                if spec.get("reset_on_replug", True):
+                    ev.reset()
+                    recorded = []
+                    labels.add("reset_between_sessions")
+                evse = EVSE("st-%d" % (i + 2))
+                evse.plugin(ev)
+                sessions += 1
+            evse.set_pilot(pilot, V, T)
+            recorded.append(evse.ev.current_charging_rate)  # what ChargingNetwork.current_charging_rates reads
+            ledger = math.fsum(r * V / 1000.0 * (T / 60.0) for r in recorded)
+            require(close(ev.energy_delivered, ledger, ab=1e-11 * max(1.0, spec["cap"])), "ev_energy_equals_recorded_rates", lambda: "use %d step %d pilot %r: EV reports %r kWh, recorded rates integrate to %r kWh (%r)" % (sessions, i, pilot, ev.energy_delivered, ledger, recorded))
+            init, cur = battery_state(ev)
+            require(close(cur - init, ev.energy_delivered, ab=1e-11 * max(1.0, spec["cap"])) or not spec.get("reset_on_replug", True) and False, "battery_gain_equals_ev_energy", lambda: "use %d step %d: battery gained %r kWh, EV reports %r kWh" % (sessions, i, cur - init, ev.energy_delivered))
+    if sessions > 1:
+        labels.add("ev_object_used_again")
+    rec.case(spec, labels, sessions > 1 and any(p == 0 for p in spec["pilots"]))
+
+
+@st.composite
+def replug_cases(draw):
+    from .c03 import cases as c03_cases
+
+    spec = draw(c03_cases())
+    spec["levels"] = None
+    spec["bad_resets"] = []
+    n = len(spec["pilots"])
+    spec["replug"] = sorted(draw(st.sets(st.integers(1, max(1, n - 1)), max_size=3)))
+    # every new use starts with a 0 A period or two
+    pilots = list(spec["pilots"])
+    for k in spec["replug"]:
+        if k < len(pilots) and draw(st.booleans()):
+            pilots[k] = 0.0
+    spec["pilots"] = pilots
+    spec["reset_on_replug"] = True
+    return spec
 
 
 def stochastic_cases():
@@ -165,4 +252,6 @@ def stochastic_cases():
 def replay(subcheck, spec, rec):
     if subcheck == "ledger_stochastic":
         return prop_stochastic(spec, rec)
+    if subcheck == "ledger_replug":
+        return prop_replug(spec, rec)
     return prop(spec, rec)
